@@ -206,7 +206,7 @@ func ruleGL() Rule {
 	return Rule{ID: "GL", Kind: "must", Floor: 4,
 		Doc: "in Glob: a path+separator element is appended only under a test that the separator is empty or the path is a directory (GL2); the literal arm appends only after a successful Lstat (GL3); every multi-element result passes sort.Strings before it can be returned (GL1)",
 		Run: func(c *Ctx, rr *core.RuleResult) {
-			f := c.mustFn(rr, "pattern.Glob")
+			f := c.effective(c.mustFn(rr, "pattern.Glob"))
 			if f == nil {
 				return
 			}
